@@ -58,6 +58,10 @@ type streamPlan struct {
 	ZeroReads   bool   `json:"reader_returns_zero_reads"`
 	CopyBuf     int    `json:"copy_buffer,omitempty"`
 	Poison      bool   `json:"receive_buffer_overwritten_at_next_receive"`
+	// chunk-aligned cases: the snapshot FILE is AlignK MiB + AlignDelta bytes long
+	Aligned    bool `json:"file_length_aimed_at_chunk_size,omitempty"`
+	AlignK     int  `json:"file_length_mib,omitempty"`
+	AlignDelta int  `json:"file_length_delta,omitempty"`
 }
 
 type streamWitness struct {
@@ -114,6 +118,15 @@ func genCommands(r *rand.Rand, profile string, env *codecEnv) []*pb.Command {
 			}
 			out = append(out, putCmd(r, vl, comp))
 		}
+	case "chunk-aligned":
+		// a few ordinary pairs, then one pair with a filler value that fitFileLength tunes
+		n := 10 + r.Intn(40)
+		for i := 0; i < n; i++ {
+			out = append(out, putCmd(r, r.Intn(4096), r.Intn(4) == 0))
+		}
+		out = append(out, &pb.Command{Table: []byte("tbl"), Type: pb.Command_PUT, Kv: &pb.KeyValue{Key: []byte("filler"), Value: nil}})
+		li := r.Uint64() >> 20
+		return append(out, &pb.Command{Table: []byte("tbl"), Type: pb.Command_DUMMY, LeaderIndex: &li})
 	case "medium":
 		// incompressible values of a few KiB: snappy stores such blocks literally, so the position of
 		// every length prefix in the raw file is known and chunk boundaries can be aimed at them
@@ -712,7 +725,32 @@ type streamEnv struct {
 	tables *fakeTables // behind the in-memory BackupServer of the fake transport
 }
 
+// alignedPlans: snapshot files whose length is aimed at the 1 MiB chunk size of the stream
+// (exact multiples and the neighbours as controls), shipped through Writer.ReadFrom / the
+// production expression and received by Reader.WriteTo into its recycled chunk.
+var alignedPlans = []struct {
+	k, delta  int
+	transport string
+	prod      bool
+}{
+	{1, 0, "fake", false}, {2, 0, "grpc", false}, {3, 0, "fake", true}, {1, 0, "grpc", true},
+	{1, -1, "fake", false}, {1, 1, "grpc", false}, {2, -1, "fake", true}, {2, 1, "fake", false},
+}
+
+const alignedBase = 100000
+
 func planFor(r *rand.Rand, c streamCase) streamPlan {
+	if c.Idx >= alignedBase {
+		a := alignedPlans[(c.Idx-alignedBase)%len(alignedPlans)]
+		p := streamPlan{Transport: a.transport, Poison: a.transport == "fake", Profile: "chunk-aligned", Dir: "snapshot",
+			Send: "Writer.ReadFrom(short reads)", Recv: "io.Copy(file, &snapshot.Reader) = Reader.WriteTo", Aligned: true, AlignK: a.k, AlignDelta: a.delta, CopyBuf: 1 << 20}
+		if a.prod {
+			p.Send = "production: io.Copy(&snapshot.Writer, bufio 1MiB over the file)"
+		}
+		p.Cuts = []string{"full", "random", "targeted"}[r.Intn(3)]
+		p.EOFWithData = r.Intn(3) == 0
+		return p
+	}
 	p := streamPlan{Transport: "fake", Poison: true}
 	if c.Idx%7 == 6 {
 		p.Transport = "grpc"
@@ -820,6 +858,12 @@ func runStreamCaseOnce(se *streamEnv, c streamCase, noPoison bool) (pv *pendingV
 		plan.Poison = false
 	}
 	cmds := genCommands(rnd, plan.Profile, se.ce)
+	if plan.Aligned {
+		if err := fitFileLength(rnd, cmds, plan.AlignK<<20+plan.AlignDelta); err != nil {
+			r.Inconclusive(fmt.Sprintf("stream case %d: %v", c.Idx, err))
+			return nil
+		}
+	}
 	w := streamWitness{Case: c, Plan: plan, Commands: len(cmds), FirstCmds: describeCmds(cmds, 6)}
 	fail := func(sig, stage, detail string) {
 		w.Stage, w.Detail = stage, detail
@@ -864,6 +908,10 @@ func runStreamCaseOnce(se *streamEnv, c streamCase, noPoison bool) (pv *pendingV
 		return
 	}
 	w.FileBytes = len(raw1)
+	if plan.Aligned && len(raw1) != plan.AlignK<<20+plan.AlignDelta {
+		broken(fmt.Sprintf("snapshot file is %d bytes, aimed at %d", len(raw1), plan.AlignK<<20+plan.AlignDelta))
+		return
+	}
 	r.Count("stream_commands", int64(len(cmds)))
 	r.Count("stream_file_bytes", int64(len(raw1)))
 
@@ -1092,6 +1140,11 @@ func runStreamCaseOnce(se *streamEnv, c streamCase, noPoison bool) (pv *pendingV
 	}
 	r.Eval(1)
 	r.Count("streams", 1)
+	if len(raw1) > 0 && len(raw1)%snapshot.DefaultSnapshotChunkSize == 0 {
+		r.Count("streams_with_file_length_exact_multiple_of_chunk_size", 1)
+	} else if plan.Aligned {
+		r.Count("streams_with_file_length_next_to_multiple_of_chunk_size", 1)
+	}
 	r.Count("stream_chunks", int64(len(job.lens)))
 	for k, v := range kinds {
 		r.Count("chunk_boundaries_"+k, int64(v))
@@ -1205,5 +1258,71 @@ func streamPlanCases(r *ev.Run) []streamCase {
 	for i := 0; i < n; i++ {
 		out = append(out, streamCase{Part: "stream", Idx: i, Seed: r.Seed*3_000_017 + int64(i)*10_007})
 	}
+	for i := 0; i < r.Pick(len(alignedPlans), 4*len(alignedPlans)); i++ {
+		out = append(out, streamCase{Part: "stream", Idx: alignedBase + i, Seed: r.Seed*3_000_017 + int64(alignedBase+i)*10_007})
+	}
 	return out
+}
+
+// snapshotFileLength writes the commands to a scratch snapshot file the way the case will and
+// returns the length of the file.
+func snapshotFileLength(cmds []*pb.Command) (int, error) {
+	sf, err := snapshot.NewTemp()
+	if err != nil {
+		return 0, err
+	}
+	defer func() { _ = sf.Close(); _ = os.Remove(sf.Path()) }()
+	var buf []byte
+	for _, cmd := range cmds {
+		size := cmd.SizeVT()
+		if cap(buf) < size {
+			buf = make([]byte, size*2)
+		}
+		n, err := cmd.MarshalToSizedBufferVT(buf[:size])
+		if err != nil {
+			return 0, err
+		}
+		if _, err := sf.Write(buf[:n]); err != nil {
+			return 0, err
+		}
+	}
+	if err := sf.Sync(); err != nil {
+		return 0, err
+	}
+	st, err := os.Stat(sf.Path())
+	if err != nil {
+		return 0, err
+	}
+	return int(st.Size()), nil
+}
+
+// fitFileLength tunes the filler value (second to last command) until the snapshot file — after
+// the snappy framing — is exactly target bytes long: build, measure, adjust, rebuild.
+func fitFileLength(r *rand.Rand, cmds []*pb.Command, target int) error {
+	filler := cmds[len(cmds)-2].Kv
+	material := randBytes(r, target+64*1024) // incompressible: literal snappy blocks, length grows byte by byte
+	n := target - 4096
+	if n < 0 {
+		n = 0
+	}
+	for it := 0; it < 24; it++ {
+		filler.Value = material[:n]
+		got, err := snapshotFileLength(cmds)
+		if err != nil {
+			return err
+		}
+		if got == target {
+			return nil
+		}
+		n += target - got
+		if it%6 == 5 {
+			// stuck on a block boundary (a new 64 KiB block costs 8 bytes at once): shift the alignment
+			first := cmds[0].Kv
+			first.Value = append(first.Value, byte(it))
+		}
+		if n < 0 || n > len(material) {
+			return fmt.Errorf("cannot reach a snapshot file of %d bytes (filler would be %d bytes)", target, n)
+		}
+	}
+	return fmt.Errorf("snapshot file length did not settle on %d bytes", target)
 }
